@@ -174,7 +174,19 @@ def make_config(at, P, variant):
         v0 = float(parset.pars[target].interpolate(start + 2, pop)[0])
         if not np.isfinite(v0):
             v0 = 0.05  # function parameter without databook values
-        scen = at.ParameterScenario(name="scen", scenario_values={target: {pop: {"t": [start + 2, start + 4], "y": [v0, 0.8 * v0]}}})
+        values = {target: {pop: {"t": [start + 2, start + 4], "y": [v0, 0.8 * v0]}}}
+        # overwrites of transfers / interactions are keyed by (from_pop, to_pop) and live outside ``parset.pars``
+        for conn in (parset.transfers, parset.interactions):
+            for cname, by_src in conn.items():
+                src = next((s_ for s_, p_ in by_src.items() if p_.ts), None)
+                if src is None or cname in values:
+                    continue
+                dst = list(by_src[src].ts.keys())[0]
+                w0 = float(by_src[src].interpolate(start + 2, dst)[0])
+                if np.isfinite(w0):
+                    values[cname] = {(src, dst): {"t": [start + 2, start + 4], "y": [w0, 0.8 * w0]}}
+                break
+        scen = at.ParameterScenario(name="scen", scenario_values=values)
         parset = scen.get_parset(parset, P)
     elif variant == "saved_init":
         # restart from a saved state: the state is saved from a run of a donor calibration and reused in another
@@ -307,7 +319,11 @@ def run(ch, idx, tier):
             P = entry.project()
             if variant not in PRIVATE_SETTINGS:
                 shared_projects.setdefault(name, P)
+        base_before = flatten(P.parsets[0]) if variant == "parscen" else None
         parset, progset, instr, scen = make_config(at, P, variant)
+        if base_before is not None and flatten(P.parsets[0]) != base_before:
+            # the scenario's parameter set is derived from the caller's, which is an input like any other
+            violate("input_modified", "base_parset by ParameterScenario.get_parset", {"client": k, "project": name, "variant": variant, "op": "ParameterScenario.get_parset", "diff": diff_tokens(base_before, flatten(P.parsets[0]), 4)})
         if "caller_edits_inputs" in tpl:
             # this client will edit its inputs after building: give it private (equal) copies, the snapshots below are taken from them
             import sciris as _sc
